@@ -48,6 +48,8 @@ class Side:
         self.stack = []          # sids of the functions currently executing
         self.trace = {}          # sid -> flattened trace of its dynamic subtree (queries, nested call outcomes)
         self.outcome = {}        # sid -> 'ok' | 'raised' | 'setup-failed' of the call in this build
+        self.api_stack = []      # sids of the builder calls in progress (innermost last), for fault attribution
+        self.fail_setup = None   # reference side (C14): the call with this sid fails in setup with OSError, without effect
 
 
 def _fc(side, name):
@@ -210,15 +212,21 @@ def _do_bf(b, st, side, sid):
         return r
 
     args = _args(opts, side, sid)
+    side.api_stack.append(sid)
     try:
+        if side.fail_setup == sid:
+            raise OSError(5, 'injected fault (reference: the call fails in setup without effect)')
         cmp = opts.get('cmp')
         if cmp is None:
             v = b.build_file(path, name, f, *args)
         else:
             v = b.build_file_with_comparison(path, _fc(side, cmp), name, f, *args)
+        side.api_stack.pop()
         _record_outcome(side, sid, 'ok')
         return v
     except Exception as e:
+        if side.api_stack and side.api_stack[-1] == sid:
+            side.api_stack.pop()
         _record_outcome(side, sid, 'raised' if entered else 'setup-failed')
         if not opts.get('catch') or isinstance(e, Crash):
             raise
@@ -250,11 +258,17 @@ def _do_sb(b, st, side, sid):
         return r
 
     args = _args(opts, side, sid)
+    side.api_stack.append(sid)
     try:
+        if side.fail_setup == sid:
+            raise OSError(5, 'injected fault (reference: the call fails in setup without effect)')
         v = b.subbuild(name, g, *args)
+        side.api_stack.pop()
         _record_outcome(side, sid, 'ok')
         return v
     except Exception as e:
+        if side.api_stack and side.api_stack[-1] == sid:
+            side.api_stack.pop()
         _record_outcome(side, sid, 'raised' if entered else 'setup-failed')
         if not opts.get('catch') or isinstance(e, Crash):
             raise
